@@ -39,6 +39,7 @@ class Contract:
         self.name = qualname.split(".")[-1]
         self.source = kw.get("source", qualname)
         self.immutable = kw.get("immutable", [])  # parameters whose object the function must not modify in place
+        self.exceptions_not_checked = kw.get("exceptions_not_checked", False)  # partial correctness of normal runs only (stated in the evidence)
         self.narrow = kw.get("narrow", [])  # union-typed variables that `if isinstance(v, C):` re-types to their alternative (flow typing)  # the function whose source is verified (several contracts may share one)
         self.params = kw.get("params", {})
         self.defaults = kw.get("defaults", {})
